@@ -161,6 +161,116 @@ func nf(s string) string {
 //@   loop 1 decreases len(s) - i
 
 // ---------------------------------------------------------------------------
+// 2b. Contracts: uri/cookie_escape.go
+// ---------------------------------------------------------------------------
+
+// specCookieNeedsEsc is transcribed from RFC 6265 cookie-octet (what net/http would otherwise drop
+// or quote) plus the escape character itself; bytes >= 0x80 are escaped as well.
+func specCookieNeedsEsc(c byte) bool {
+	return c <= ' ' || c == '"' || c == ',' || c == ';' || c == '\\' || c >= 0x7f || c == '%'
+}
+
+// escTok: the escaped form of one octet.
+func escTok(c byte) string {
+	if specCookieNeedsEsc(c) {
+		return "%" + str1(specUpperHexDigit(c>>4)) + str1(specUpperHexDigit(c&15))
+	}
+	return str1(c)
+}
+
+// escC: the cookie-escaped form of s.
+func escC(s string) string {
+	if len(s) == 0 {
+		return ""
+	}
+	return escTok(s[0]) + escC(s[1:])
+}
+
+// countEsc: number of octets of s that need escaping.
+func countEsc(s string) int {
+	if len(s) == 0 {
+		return 0
+	}
+	if specCookieNeedsEsc(s[0]) {
+		return 1 + countEsc(s[1:])
+	}
+	return countEsc(s[1:])
+}
+
+//@ func escapeCookie(s string) (out string)
+//@   ensures spec: out == escC(s)
+//@   uses escNone
+//@   loop 0 vars rangeindex int, n int
+//@   loop 0 invariant range: -1 <= rangeindex && rangeindex < len(s)
+//@   loop 0 invariant count: n + countEsc(s[rangeindex+1:]) == countEsc(s)
+//@   loop 0 invariant nonneg: n >= 0 && n <= rangeindex + 1
+//@   loop 0 decreases len(s) - rangeindex
+//@   loop 1 vars rangeindex int, sb *strings.Builder
+//@   loop 1 invariant range: -1 <= rangeindex && rangeindex < len(s)
+//@   loop 1 invariant acc:   sb.String() + escC(s[rangeindex+1:]) == escC(s)
+//@   loop 1 assert hex:      forall k in (0, 16) :: hex[k] == specUpperHexDigit(byte(k))
+//@   loop 1 assert step:     rangeindex+1 < len(s) ==> escC(s[rangeindex+1:]) == escTok(s[rangeindex+1]) + escC(s[rangeindex+2:])
+//@   loop 1 decreases len(s) - rangeindex
+
+// A string in which nothing needs escaping is its own escaped form.
+//@ lemma escNone(x string)
+//@   requires countEsc(x) == 0
+//@   ensures same: escC(x) == x
+//@   decreases len(x)
+//@   induct x[1:]
+//@   uses countEscNonneg
+//@   trigger countEsc(x)
+
+//@ lemma countEscNonneg(x string)
+//@   ensures nonneg: countEsc(x) >= 0
+//@   decreases len(x)
+//@   induct x[1:]
+//@   trigger countEsc(x)
+
+//@ func unescapeCookie(s string) (out string, ok bool)
+//@   ensures verdict: ok == wellEscaped(s)
+//@   ensures decoded: ok ==> out == pctDecode(s)
+//@   ensures rejected: !ok ==> out == ""
+//@   loop 0 vars i int, n int
+//@   loop 0 invariant range:    0 <= i && i <= len(s)
+//@   loop 0 invariant boundary: wellEscaped(s) == wellEscaped(s[i:])
+//@   loop 0 invariant count:    n >= 0 && 3*n <= i
+//@   loop 0 invariant none:     n == 0 ==> pctDecode(s) == s[:i] + pctDecode(s[i:])
+//@   loop 0 decreases len(s) - i
+//@   loop 1 vars i int, sb *strings.Builder
+//@   loop 1 invariant range:    0 <= i && i <= len(s)
+//@   loop 1 invariant whole:    wellEscaped(s)
+//@   loop 1 invariant rest:     wellEscaped(s[i:])
+//@   loop 1 invariant acc:      sb.String() + pctDecode(s[i:]) == pctDecode(s)
+//@   loop 1 assert esc:   i < len(s) && s[i] == '%' ==> escAt(s[i:]) && pctDecode(s[i:]) == str1(byte(specByte(s[i+1], s[i+2]))) + pctDecode(s[i+3:])
+//@   loop 1 assert plain: i < len(s) && s[i] != '%' ==> pctDecode(s[i:]) == s[i:i+1] + pctDecode(s[i+1:])
+//@   loop 1 decreases len(s) - i
+
+// One escaped token in front of r decodes to its octet in front of the decoding of r.
+//@ lemma tokDecode(c byte, r string)
+//@   ensures wf:  wellEscaped(escTok(c) + r) == wellEscaped(r)
+//@   ensures dec: pctDecode(escTok(c) + r) == str1(c) + pctDecode(r)
+//@   assert val:  specByte(specUpperHexDigit(c>>4), specUpperHexDigit(c&15)) == int(c)
+//@   assert esc:  specCookieNeedsEsc(c) ==> escAt(escTok(c) + r) && (escTok(c) + r)[3:] == r && (escTok(c) + r)[1] == specUpperHexDigit(c>>4) && (escTok(c) + r)[2] == specUpperHexDigit(c&15)
+//@   assert raw:  !specCookieNeedsEsc(c) ==> !escAt(escTok(c) + r) && (escTok(c) + r)[1:] == r && (escTok(c) + r)[:1] == str1(c)
+//@   trigger escTok(c) + r
+
+// Cookie escaping is inverted by percent-decoding, and its output is always well-escaped.
+//@ lemma cookieInverse(s string)
+//@   ensures wf:  wellEscaped(escC(s))
+//@   ensures inv: pctDecode(escC(s)) == s
+//@   decreases len(s)
+//@   induct s[1:]
+//@   uses tokDecode
+//@   trigger escC(s)
+
+// Harness (property-level lemma over the two contracts): "cookie escaping is an exact inverse pair".
+//@ func verifCookieRoundTrip(s string) (out string, ok bool)
+//@   ensures inverse: ok && out == s
+//@   uses cookieInverse
+func verifCookieRoundTrip(s string) (string, bool) { return unescapeCookie(escapeCookie(s)) }
+
+// ---------------------------------------------------------------------------
 // 3. Lemmas
 // ---------------------------------------------------------------------------
 
